@@ -214,6 +214,22 @@ func perturbations(base DagCase) []DagCase {
 				c.Commits[i].Edit = maxParent(c, i) + 5_000_000
 				shift(&c, i, 0)
 				out = append(out, c)
+
+				// a merge commit may jump arbitrarily far: past 2^63 the edit times only compare
+				// correctly as unsigned 64-bit values
+				c = clone()
+				c.Perturb, c.At, c.Intent = "merge-jump-past-2^63", i, "accept"
+				c.Commits[i].Edit = maxParent(c, i) + (1 << 63) + 10
+				shift(&c, i, 0)
+				out = append(out, c)
+			}
+			if !isMerge {
+				// the creation time belongs to the root commit: a create clock on a later commit does not replace it
+				c := clone()
+				c.Perturb, c.At, c.Intent = "create-clock-only-on-later-commit", i, "refuse"
+				c.Commits[0].Create = 0
+				c.Commits[i].Create = 1
+				out = append(out, c)
 			}
 		} else {
 			c := clone()
